@@ -672,7 +672,7 @@ impl TTS {
         for cap in full_attr_re.captures_iter(str) {
             let mut amount = 0;
             for c in sub_attr_re.captures_iter(&cap[0]) {
-                amount = std::cmp::max(amount, c[1].parse::<usize>().unwrap());
+                amount = std::cmp::max(amount, c[1].parse::<usize>().unwrap_or(usize::MAX));    // more digits than fit: the longest pause
             };
             merges_string = merges_string.replace(&cap[0], &replace_with(amount));
         }
